@@ -630,6 +630,55 @@ fn check_result(mt: Mt, st: &mut OracleState, q: &[i64], k: usize, res: &[(NodeI
     res.len() < k.min(st.live.len())
 }
 
+
+/// Independent re-computation (exact integer arithmetic on the hook's dump) of the node the
+/// layer-0 beam search starts from (greedy descent of `search_with_ef`) and of the number of nodes
+/// that layer-0 links reach from it.  The property promises k results for REACHABLE vectors.
+fn reach0_from_start(d: &Dump, dist: &dyn Fn(u64) -> f64) -> Option<(u64, usize)> {
+    let ep = d.0?;
+    let adj: BTreeMap<u64, &Vec<Vec<u64>>> = d.2.iter().map(|(i, l)| (*i, l)).collect();
+    if adj.is_empty() {
+        return None;
+    }
+    let mut cur = ep;
+    for lc in (1..=d.1).rev() {
+        let mut cd = dist(cur);
+        loop {
+            let mut changed = false;
+            if let Some(ls) = adj.get(&cur) {
+                if lc < ls.len() {
+                    for &n in &ls[lc] {
+                        let dn = dist(n);
+                        if dn < cd {
+                            cur = n;
+                            cd = dn;
+                            changed = true;
+                        }
+                    }
+                }
+            }
+            if !changed {
+                break;
+            }
+        }
+    }
+    let mut seen: BTreeSet<u64> = BTreeSet::new();
+    let mut todo = vec![cur];
+    seen.insert(cur);
+    while let Some(x) = todo.pop() {
+        if let Some(ls) = adj.get(&x) {
+            if let Some(l0) = ls.first() {
+                for &n in l0 {
+                    if seen.insert(n) {
+                        todo.push(n);
+                    }
+                }
+            }
+        }
+    }
+    Some((cur, seen.len()))
+}
+
 fn run_hist(h: &Hist, out: &mut Out, hook: bool, origin: &str) {
     let mut cfg = HnswConfig::new(h.dim, h.mt.metric());
     cfg.m = h.m;
@@ -643,7 +692,7 @@ fn run_hist(h: &Hist, out: &mut Out, hook: bool, origin: &str) {
     let mut st = OracleState { live: BTreeMap::new(), fail: None };
     let mut terms: Vec<String> = Vec::new();
     let mut human: Vec<String> = Vec::new();
-    let mut shortfall: Option<(usize, String)> = None; // (number of terms including the failing search, description)
+    let mut n_short_explained = 0;
     let mut n_remove = 0;
     let mut n_reinsert = 0;
     let mut n_search_le = 0;
@@ -716,11 +765,27 @@ fn run_hist(h: &Hist, out: &mut Out, hook: bool, origin: &str) {
                 }
                 tags.insert(if *k == 0 { "k=0".into() } else if *k > st.live.len() { "k>size".into() } else { "k<=size".into() });
                 tags.insert(match ef { None => "ef=default".into(), Some(0) => "ef=0".into(), Some(e) if *e > st.live.len() => "ef>size".into(), _ => "ef<=size".into() });
-                if short {
-                    tags.insert("shortfall".into());
-                    if shortfall.is_none() {
-                        shortfall = Some((terms.len(), format!("search {:?} k={} ef={:?} returned {} of {} held vectors", q, k, ef, res.len(), st.live.len())));
+                if let Some(d) = dump_of(&ix) {
+                    let live = &st.live;
+                    let mt = h.mt;
+                    let dist = |id: u64| -> f64 { live.get(&id).map_or(f64::MAX, |v| mt.exact(q, v) as f64) };
+                    if let Some((start, r0)) = reach0_from_start(&d, &dist) {
+                        if r0 < st.live.len() {
+                            tags.insert("live-vector-unreachable-at-layer0".into());
+                        }
+                        if res.len() < (*k).min(r0) && st.fail.is_none() {
+                            st.fail = Some(format!(
+                                "search {:?} k={} ef={:?} returned {} results although layer-0 links reach {} vectors from the search's start node {}",
+                                q, k, ef, res.len(), r0, start
+                            ));
+                        }
+                        if short && res.len() >= (*k).min(r0) {
+                            tags.insert("shortfall-explained-by-unreachability".into());
+                            n_short_explained += 1;
+                        }
                     }
+                } else if short {
+                    tags.insert("shortfall-unclassified".into());
                 }
             }
             HOp::Batch(qs, k, ef) => {
@@ -799,44 +864,15 @@ fn run_hist(h: &Hist, out: &mut Out, hook: bool, origin: &str) {
         oracle: if st.fail.is_some() { Oracle::Fail } else { Oracle::Ok },
         msg: st.fail.clone().unwrap_or_default(),
         nontrivial: nt,
-        imp: format!("{} ops, {} live, entry-pick-unknown={}", h.ops.len(), st.live.len(), n_entry_unknown),
+        imp: format!("{} ops, {} live, entry-pick-unknown={}, short-but-complete-for-reachable={}", h.ops.len(), st.live.len(), n_entry_unknown, n_short_explained),
         tags: tagv.clone(),
         ..Default::default()
     });
-    // completeness: a shortfall is a property failure; it is a listed finding exactly when the
-    // model (which follows the implementation up to and including the short search) has a live
-    // node that layer-0 links do not reach from the search's start
-    if let Some((n, why)) = shortfall {
-        if replay {
-            out.emit(&Case {
-                kind: "hnsw-shortfall".into(),
-                input,
-                oracle: Oracle::Fail,
-                msg: why,
-                kid: Some("C18-K1".into()),
-                kcoq: Some(format!("k_unreachable {} {} {}", h.mt.coq(), cfg_term, ops_term(n))),
-                nontrivial: nt,
-                imp: "fewer than min(k, size) results".into(),
-                tags: vec!["shortfall-classified".into()],
-                ..Default::default()
-            });
-        } else {
-            out.emit(&Case {
-                kind: "hnsw-shortfall-unclassified".into(),
-                input,
-                oracle: Oracle::Na,
-                msg: why,
-                nontrivial: false,
-                imp: "fewer than min(k, size) results (graph not observable without the hook)".into(),
-                tags: vec!["shortfall-unclassified".into()],
-                ..Default::default()
-            });
-        }
-    }
 }
 
-/// the witness of finding C18-K1 (Props_C18.search_complete_refuted): four collinear points, the
-/// heuristic links them into a chain; removing an inner one cuts the chain
+/// the witness of Props_C18.search_complete_refuted (an OBSERVATION, not a property failure: the
+/// property promises k results for reachable vectors): four collinear points, the heuristic links
+/// them into a chain; removing an inner one cuts the chain and id 4 is never found again
 fn witness_hist() -> Hist {
     Hist {
         mt: Mt::Euclid,
@@ -931,6 +967,25 @@ fn case_hnsw_float(r: &mut Rng, out: &mut Out, big: bool) {
             }
             if res.len() < k.min(live.len()) {
                 shortfalls += 1;
+            }
+            // completeness for reachable vectors (hook): the same distances the index computes
+            if let Some(d) = dump_of(&ix) {
+                let dist = |id: u64| -> f64 {
+                    live.get(&id).map_or(f32::MAX as f64, |v| {
+                        (if metric == DistanceMetric::Cosine {
+                            let mut nv = v.clone();
+                            normalize(&mut nv);
+                            1.0 - dot_product(&nq, &nv)
+                        } else {
+                            compute_distance(&q, v, metric)
+                        }) as f64
+                    })
+                };
+                if let Some((start, r0)) = reach0_from_start(&d, &dist) {
+                    if res.len() < k.min(r0) && fail.is_none() {
+                        fail = Some(format!("{} results for k={} although layer-0 links reach {} vectors from the start node {}", res.len(), k, r0, start));
+                    }
+                }
             }
         }
     }
@@ -1109,6 +1164,466 @@ fn case_squant(r: &mut Rng, out: &mut Out) {
     });
 }
 
+
+// ------------------------------------------------------------------------------------------ brute force, extreme magnitudes (NaN distances)
+
+/// order-preserving integer image of a non-NaN f32 (-0.0 and 0.0 both map to 0)
+fn okey(x: f32) -> Option<i64> {
+    if x.is_nan() {
+        None
+    } else if x == 0.0 {
+        Some(0)
+    } else if x > 0.0 {
+        Some(x.to_bits() as i64)
+    } else {
+        Some(-((x.to_bits() & 0x7fff_ffff) as i64))
+    }
+}
+fn okey_term(k: Option<i64>) -> String {
+    match k {
+        Some(v) => format!("(Some {})", zi(v)),
+        None => "None".into(),
+    }
+}
+fn keyed_term(r: &[(u64, Option<i64>)]) -> String {
+    format!("[{}]", r.iter().map(|(i, k)| format!("({},{})", i, okey_term(*k))).collect::<Vec<_>>().join(";"))
+}
+
+/// brute_force_knn on vectors of extreme magnitude: products / squares overflow to +-inf and
+/// inf - inf = NaN.  `forced` = the corpus witness of finding C18-K2.
+fn case_brute_extreme(r: &mut Rng, out: &mut Out, forced: bool) {
+    let big = 1e30f32;
+    let (metric, q, xs): (DistanceMetric, Vec<f32>, Vec<(u64, Vec<f32>)>) = if forced {
+        (DistanceMetric::DotProduct, vec![big, big], vec![(1, vec![1.0, 1.0]), (2, vec![big, -big]), (3, vec![2.0, 2.0])])
+    } else {
+        let dim = *r.pick(&[2usize, 3, 8, 9]);
+        let metric = *r.pick(&[DistanceMetric::DotProduct, DistanceMetric::DotProduct, DistanceMetric::Euclidean, DistanceMetric::Cosine, DistanceMetric::Manhattan]);
+        // at most 20 vectors: std's stable sort is the plain insertion sort there (modelled);
+        // beyond that an inconsistent comparator may make sort_by panic
+        let n = 1 + r.below(18) as usize;
+        let p_ext = *r.pick(&[0u64, 2, 4, 6]);
+        let genx = |r: &mut Rng| -> Vec<f32> {
+            (0..dim)
+                .map(|_| {
+                    if r.below(10) < p_ext {
+                        *r.pick(&[1e30f32, -1e30, 3e38, -3e38, 1e20, -1e20])
+                    } else {
+                        r.range(-4, 4) as f32
+                    }
+                })
+                .collect()
+        };
+        let q = genx(r);
+        let xs = (0..n).map(|i| (i as u64 + 1, genx(r))).collect();
+        (metric, q, xs)
+    };
+    let n = xs.len();
+    let k = if forced { 1 } else { *r.pick(&[1usize, 2, n.saturating_sub(1).max(1), n, n + 2]) };
+    let keyed: Vec<(u64, Option<i64>)> = xs.iter().map(|(i, v)| (*i, okey(compute_distance(&q, v, metric)))).collect();
+    let res = brute_force_knn(xs.iter().map(|(i, v)| (NodeId::new(*i), v.as_slice())), &q, k, metric);
+    let res_keyed: Vec<(u64, Option<i64>)> = res.iter().map(|(i, d)| (i.0, okey(*d))).collect();
+    // oracle: the k smallest in the order of increasing distance (NaN, the distance of nothing, last), ties in input order
+    let mut want = keyed.clone();
+    want.sort_by(|a, b| match (a.1, b.1) {
+        (Some(x), Some(y)) => x.cmp(&y),
+        (None, None) => std::cmp::Ordering::Equal,
+        (None, _) => std::cmp::Ordering::Greater,
+        (_, None) => std::cmp::Ordering::Less,
+    });
+    want.truncate(k);
+    let ok = want == res_keyed;
+    let has_nan = keyed.iter().any(|(_, k)| k.is_none());
+    let mut tags = vec![format!("extreme-metric={}", metric.name())];
+    tags.push(if has_nan { "nan-distance".into() } else { "no-nan-distance".into() });
+    if keyed.iter().any(|(_, k)| matches!(k, Some(v) if v.unsigned_abs() == 0x7f80_0000)) {
+        tags.push("inf-distance".into());
+    }
+    out.emit(&Case {
+        kind: "brute-extreme".into(),
+        input: format!("{}metric={} k={} q={:?} xs={:?}", if forced { "corpus:C18-K2-witness " } else { "" }, metric.name(), k, q, xs),
+        coq: Some(format!("chk_brute_keys {} {} {}", keyed_term(&keyed), k, keyed_term(&res_keyed))),
+        oracle: if ok { Oracle::Ok } else { Oracle::Fail },
+        msg: if ok { String::new() } else { format!("brute_force_knn returned {:?}; the {} nearest in order are {:?}", res, k, want) },
+        kid: if ok { None } else { Some("C18-K2".into()) },
+        kcoq: if ok { None } else { Some(format!("k_nan_distance {}", keyed_term(&keyed))) },
+        nontrivial: n >= 2,
+        imp: format!("{:?}", res),
+        tags,
+        ..Default::default()
+    });
+}
+
+// ------------------------------------------------------------------------------------------ QuantizedHnswIndex against a twin HnswIndex
+
+/// The inner index of a QuantizedHnswIndex is private.  A twin HnswIndex::with_seed with the same
+/// configuration, seed and operations has the same RNG stream, hence the same levels and the
+/// same graph (removals of the entry point are avoided: the re-picked entry depends on HashMap
+/// order).  The twin's history is replayed in the model; the quantised search must equal the
+/// model's wrapper (candidate count, pre-ranking, rescoring) on the model's graph.
+fn case_qtwin(r: &mut Rng, out: &mut Out, forced: bool) {
+    let mt = if forced { Mt::Euclid } else { *r.pick(&[Mt::Euclid, Mt::Euclid, Mt::Manh, Mt::Dot]) };
+    let dim = if forced { 2 } else { *r.pick(&[2usize, 3, 8, 9]) };
+    let (qt, qn): (QuantizationType, &str) = if forced {
+        (QuantizationType::Scalar, "scalar")
+    } else {
+        match r.below(5) {
+            0 => (QuantizationType::None, "none"),
+            1 | 2 => (QuantizationType::Scalar, "scalar"),
+            _ => (QuantizationType::Binary, "binary"),
+        }
+    };
+    let rescore = forced || r.chance(3, 4);
+    let factor = if forced { 2 } else { *r.pick(&[1usize, 2, 2, 3, 4]) };
+    let threshold = 10usize;
+    let seed = r.next();
+    let mut cfg = HnswConfig::new(dim, mt.metric());
+    cfg.m = *r.pick(&[2usize, 4, 16]);
+    cfg.m_max = 2 * cfg.m;
+    cfg.ef_construction = *r.pick(&[4usize, 16, 128]);
+    cfg.ef = *r.pick(&[1usize, 5, 50]);
+    cfg.alpha = 1.0;
+    let (m, m0, efc, efd) = (cfg.m, cfg.m_max, cfg.ef_construction, cfg.ef);
+    let twin = HnswIndex::with_seed(cfg.clone(), seed);
+    let mut qix = QuantizedHnswIndex::with_seed(cfg, qt, seed).with_training_threshold(threshold).with_rescore_factor(factor);
+    if !rescore {
+        qix = qix.without_rescore();
+    }
+    if dump_of(&twin).is_none() {
+        return; // needs the hook
+    }
+    let n_ins = if forced { 12 } else { *r.pick(&[3usize, 9, 10, 11, 14, 20]) };
+    let mut live: BTreeMap<u64, Vec<i64>> = BTreeMap::new();
+    let mut terms: Vec<String> = Vec::new();
+    let mut human: Vec<String> = Vec::new();
+    let mut next_id = 1u64;
+    let mut inserted = 0usize;
+    let mut trained_inserts = 0usize; // number of insert calls (training samples are counted per call)
+    while inserted < n_ins {
+        let c = r.below(10);
+        if live.len() >= 3 && c < 2 && !forced {
+            // remove a node that is not the entry point
+            let e = dump_of(&twin).unwrap().0;
+            let cands: Vec<u64> = live.keys().copied().filter(|i| Some(*i) != e).collect();
+            let id = *r.pick(&cands);
+            let a = twin.remove(NodeId::new(id));
+            let b = qix.remove(NodeId::new(id));
+            live.remove(&id);
+            let d = dump_of(&twin).unwrap();
+            terms.push(format!("HRemove {} (Some {}) {} {}", id, match d.0 { Some(e) => format!("(Some {})", e), None => "None".into() }, coq::b(a && b), dump_term(&d)));
+            human.push(format!("rem {}", id));
+        } else {
+            let id = if c == 2 && !live.is_empty() && !forced { *r.pick(&live.keys().copied().collect::<Vec<_>>()) } else { next_id };
+            if id == next_id {
+                next_id += 1;
+            }
+            let sty = *r.pick(&[2u64, 3]);
+            let v: Vec<i64> = if forced { vec![inserted as i64, 1] } else { gen_ivec(r, dim, sty) };
+            twin.insert(NodeId::new(id), &f32v(&v, 0));
+            qix.insert(NodeId::new(id), &f32v(&v, 0));
+            live.insert(id, v.clone());
+            inserted += 1;
+            trained_inserts += 1;
+            let d = dump_of(&twin).unwrap();
+            let lv = d.2.iter().find(|(i, _)| *i == id).map(|(_, l)| l.len().saturating_sub(1)).unwrap_or(0);
+            terms.push(format!("HInsert {} {} {} {}", id, zvec(&v), lv, dump_term(&d)));
+            human.push(format!("ins {} {:?}", id, v));
+        }
+    }
+    let trained = match qt {
+        QuantizationType::Scalar => trained_inserts >= threshold,
+        QuantizationType::Binary => !live.is_empty(),
+        _ => false,
+    };
+    let size = live.len();
+    let q: Vec<i64> = if forced { vec![0, 0] } else { gen_ivec(r, dim, 2) };
+    let fq = f32v(&q, 0);
+    let k: usize = if forced {
+        usize::MAX
+    } else {
+        match r.below(10) {
+            0 => 0,
+            1 => 1,
+            2 => size,
+            3 => size + 2,
+            4 => usize::MAX,
+            5 => usize::MAX / 2 + 1,
+            6 => usize::MAX / 4 + 1,
+            _ => 1 + r.below(size as u64 + 1) as usize,
+        }
+    };
+    let ef = *r.pick(&[0usize, 1, efd, size + 3]);
+    let got = catch(std::panic::AssertUnwindSafe(|| qix.search_with_ef(&fq, k, ef)));
+    // what the wrapper multiplies k with
+    let mults: Vec<usize> = if !trained || !rescore {
+        vec![]
+    } else {
+        match qt {
+            QuantizationType::Binary => vec![factor, 2],
+            _ => vec![factor],
+        }
+    };
+    let resc = trained && rescore;
+    let pre = if trained && matches!(qt, QuantizationType::Binary) { 1 } else { 0 };
+    let keys: Vec<(u64, u32)> = if pre == 1 {
+        let qb = grafeo_core::index::vector::BinaryQuantizer::quantize(&fq);
+        live.iter().map(|(i, v)| (*i, grafeo_core::index::vector::BinaryQuantizer::hamming_distance(&qb, &grafeo_core::index::vector::BinaryQuantizer::quantize(&f32v(v, 0))))).collect()
+    } else {
+        vec![]
+    };
+    let cmp_dist = !(pre == 1 && !resc);
+    let impl_term = match &got {
+        Ok(res) => format!("(Some {})", res_term(res)),
+        Err(_) => "None".into(),
+    };
+    let mult_term = format!("[{}]", mults.iter().map(|m| m.to_string()).collect::<Vec<_>>().join(";"));
+    // oracle
+    let mut st = OracleState { live: live.clone(), fail: None };
+    let (oracle, msg, kid, kcoq) = match &got {
+        Err(_) => (
+            Oracle::Fail,
+            format!("QuantizedHnswIndex::search_with_ef(k={}) panicked (k * rescore_factor overflows)", k),
+            Some("C18-K3".to_string()),
+            Some(format!("k_qoverflow {} {} {}", k, mult_term, coq::b(resc))),
+        ),
+        Ok(res) => {
+            if cmp_dist {
+                check_result(mt, &mut st, &q, k, res, "quantised search");
+            } else {
+                // hamming estimates: only <= k, distinct, live, sorted
+                let mut seen = BTreeSet::new();
+                let mut prev = f32::NEG_INFINITY;
+                for (id, d) in res {
+                    if (!seen.insert(id.0) || !live.contains_key(&id.0) || !(prev <= *d)) && st.fail.is_none() {
+                        st.fail = Some(format!("id {}: duplicate, not held or out of order", id.0));
+                    }
+                    prev = *d;
+                }
+                if res.len() > k && st.fail.is_none() {
+                    st.fail = Some("more than k results".into());
+                }
+            }
+            // completeness against the twin: the wrapper may not lose candidates
+            let twin_k = twin.search_with_ef(&fq, k, ef);
+            if res.len() < twin_k.len() && st.fail.is_none() {
+                st.fail = Some(format!("{} results but the plain index returns {} for the same k", res.len(), twin_k.len()));
+            }
+            (if st.fail.is_some() { Oracle::Fail } else { Oracle::Ok }, st.fail.clone().unwrap_or_default(), None, None)
+        }
+    };
+    let mut tags = vec![format!("qtwin-quant={}", qn), format!("qtwin-rescore={}", rescore), format!("qtwin-trained={}", trained), format!("qtwin-factor={}", factor)];
+    tags.push(if k == 0 { "qtwin-k=0".into() } else if k > usize::MAX / 4 { "qtwin-k-huge".into() } else if k > size { "qtwin-k>size".into() } else { "qtwin-k<=size".into() });
+    out.emit(&Case {
+        kind: "quantized-twin".into(),
+        input: format!(
+            "{}quant={} rescore={} factor={} metric={} dim={} M={} efc={} seed={} :: {} ; search {:?} k={} ef={}",
+            if forced { "corpus:C18-K3-witness " } else { "" }, qn, rescore, factor, mt.name(), dim, m, efc, seed, human.join(" ; "), q, k, ef
+        ),
+        coq: Some(format!(
+            "chk_qsearch {} (mk_config {} {} {}) [{}] {} {} {} {} {} {} [{}] {} {}",
+            mt.coq(), m, m0, efc, terms.join(";"), zvec(&q), k, ef, mult_term, coq::b(resc), pre,
+            keys.iter().map(|(i, h)| format!("({},{})", i, h)).collect::<Vec<_>>().join(";"), coq::b(cmp_dist), impl_term
+        )),
+        oracle,
+        msg,
+        kid,
+        kcoq,
+        nontrivial: size >= 2 && k >= 1,
+        imp: match &got { Ok(res) => res_human(res), Err(_) => "panic".into() },
+        tags,
+        ..Default::default()
+    });
+}
+
+// ------------------------------------------------------------------------------------------ VectorScanOperator / VectorJoinOperator
+
+fn case_operators(r: &mut Rng, out: &mut Out, forced: bool) {
+    use grafeo_common::types::Value;
+    use grafeo_core::execution::operators::{NodeListOperator, Operator, VectorJoinOperator, VectorScanOperator};
+    use grafeo_core::graph::lpg::LpgStore;
+    use std::sync::Arc;
+    let mt = if forced { Mt::Euclid } else { *r.pick(&[Mt::Euclid, Mt::Manh, Mt::Dot]) };
+    let dim = if forced { 2 } else { *r.pick(&[1usize, 2, 3, 8]) };
+    let n = if forced { 4 } else { 2 + r.below(9) as usize };
+    let store = Arc::new(LpgStore::new());
+    let mut vecs: BTreeMap<u64, Vec<i64>> = BTreeMap::new();
+    let mut all_nodes: Vec<NodeId> = Vec::new();
+    for i in 0..n {
+        let id = store.create_node(&["Item"]);
+        all_nodes.push(id);
+        if forced || !r.chance(1, 8) {
+            let v = if forced { vec![i as i64, 0] } else { gen_ivec(r, dim, 3) };
+            store.set_node_property(id, "e", Value::Vector(f32v(&v, 0).into()));
+            vecs.insert(id.0, v);
+        }
+    }
+    let to_f32 = |d: f64| -> f32 { d as f32 };
+    // ---- scan
+    {
+        let q = if forced { vec![0, 0] } else { gen_ivec(r, dim, 3) };
+        let k = if forced { 3 } else { *r.pick(&[0usize, 1, 2, n, n + 1]) };
+        let cap = if forced { 2 } else { *r.pick(&[1usize, 2, 3, 5, 2048]) };
+        let use_index = !forced && r.chance(1, 3) && !vecs.is_empty();
+        let maxd = if !forced && r.chance(1, 4) { Some(r.range(0, 6) as f32) } else { None };
+        let fq = f32v(&q, 0);
+        let (mut op, expect): (VectorScanOperator, Vec<(NodeId, f32)>) = if use_index {
+            let ix = Arc::new(HnswIndex::with_seed(HnswConfig::new(dim, mt.metric()), r.next()));
+            for (i, v) in &vecs {
+                ix.insert(NodeId::new(*i), &f32v(v, 0));
+            }
+            let e = ix.search_with_ef(&fq, k, 64);
+            (VectorScanOperator::with_index(Arc::clone(&store), ix, fq.clone(), k), e)
+        } else {
+            let fx: Vec<(NodeId, Vec<f32>)> = vecs.iter().map(|(i, v)| (NodeId::new(*i), f32v(v, 0))).collect();
+            let e = brute_force_knn(fx.iter().map(|(i, v)| (*i, v.as_slice())), &fq, k, mt.metric());
+            (VectorScanOperator::brute_force(Arc::clone(&store), "e", fq.clone(), k, mt.metric()).with_label("Item"), e)
+        };
+        op = op.with_chunk_capacity(cap);
+        if let Some(t) = maxd {
+            op = op.with_max_distance(t);
+        }
+        let expect: Vec<(NodeId, f32)> = expect.into_iter().filter(|(_, d)| maxd.map_or(true, |t| *d <= t)).collect();
+        let mut chunks: Vec<Vec<(NodeId, f32)>> = Vec::new();
+        let mut calls = 0;
+        let mut finished = false;
+        while calls < expect.len() + 5 {
+            calls += 1;
+            match op.next() {
+                Ok(Some(ch)) => {
+                    let mut rows = Vec::new();
+                    for i in 0..ch.row_count() {
+                        rows.push((ch.column(0).and_then(|c| c.get_node_id(i)).unwrap_or(NodeId::new(u64::MAX)), to_f32(ch.column(1).and_then(|c| c.get_float64(i)).unwrap_or(f64::NAN))));
+                    }
+                    chunks.push(rows);
+                }
+                _ => {
+                    finished = true;
+                    break;
+                }
+            }
+        }
+        let flat: Vec<(NodeId, f32)> = chunks.iter().flatten().copied().collect();
+        let same = flat.len() == expect.len() && flat.iter().zip(&expect).all(|(a, b)| a.0 == b.0 && a.1.to_bits() == b.1.to_bits());
+        let mut st = OracleState { live: vecs.clone(), fail: None };
+        check_result(mt, &mut st, &q, k, &flat, "VectorScanOperator");
+        let ok = same && finished && st.fail.is_none();
+        out.emit(&Case {
+            kind: "op-vector-scan".into(),
+            input: format!("metric={} index={} k={} cap={} maxd={:?} q={:?} vectors={:?}", mt.name(), use_index, k, cap, maxd, q, vecs),
+            coq: Some(format!("chk_scan {} {} [{}]", cap, res_term(&expect), chunks.iter().map(|c| res_term(c)).collect::<Vec<_>>().join(";"))),
+            oracle: if ok { Oracle::Ok } else { Oracle::Fail },
+            msg: if ok { String::new() } else { st.fail.unwrap_or_else(|| format!("the operator's rows {:?} are not the search result {:?} (finished={})", flat, expect, finished)) },
+            nontrivial: expect.len() >= 2,
+            imp: format!("{} chunks", chunks.len()),
+            tags: vec![format!("scan-index={}", use_index), format!("scan-cap={}", cap), if expect.len() > cap { "scan-multi-chunk".into() } else { "scan-one-chunk".into() }],
+            ..Default::default()
+        });
+    }
+    // ---- join
+    {
+        let k = if forced { 2 } else { *r.pick(&[0usize, 1, 2, 3, n]) };
+        let cap = if forced { 2 } else { *r.pick(&[1usize, 2, 3, 4, 6, 1024]) };
+        let left_chunk = if forced { 1024 } else { *r.pick(&[1usize, 2, 3, 1024]) };
+        let mode = if forced { 0 } else { r.below(3) };
+        let maxd = if !forced && r.chance(1, 4) { Some(r.range(0, 6) as f32) } else { None };
+        let left_nodes: Vec<NodeId> = if forced { vec![all_nodes[0], all_nodes[1]] } else { all_nodes.iter().copied().filter(|_| r.chance(2, 3)).collect() };
+        let fx: Vec<(NodeId, Vec<f32>)> = vecs.iter().map(|(i, v)| (NodeId::new(*i), f32v(v, 0))).collect();
+        let qstatic = gen_ivec(r, dim, 3);
+        let ix = if mode == 2 && !vecs.is_empty() {
+            let ix = Arc::new(HnswIndex::with_seed(HnswConfig::new(dim, mt.metric()), r.next()));
+            for (i, v) in &vecs {
+                ix.insert(NodeId::new(*i), &f32v(v, 0));
+            }
+            Some(ix)
+        } else {
+            None
+        };
+        let left = Box::new(NodeListOperator::new(left_nodes.clone(), left_chunk));
+        let mut op = if mode == 1 {
+            VectorJoinOperator::with_static_query(left, Arc::clone(&store), f32v(&qstatic, 0), "e", k, mt.metric())
+        } else {
+            VectorJoinOperator::entity_to_entity(left, Arc::clone(&store), 0, "e", "e", k, mt.metric())
+        };
+        if let Some(ix) = &ix {
+            op = op.with_index(Arc::clone(ix));
+        }
+        op = op.with_chunk_capacity(cap);
+        if let Some(t) = maxd {
+            op = op.with_max_distance(t);
+        }
+        // one search per left row, through the public functions
+        let mut rows: Vec<(u64, Vec<i64>, Vec<(NodeId, f32)>)> = Vec::new();
+        for l in &left_nodes {
+            let qv: Option<Vec<i64>> = if mode == 1 { Some(qstatic.clone()) } else { vecs.get(&l.0).cloned() };
+            let res = match &qv {
+                None => vec![],
+                Some(qv) => {
+                    let fq = f32v(qv, 0);
+                    let e = match &ix {
+                        Some(ix) => ix.search_with_ef(&fq, k, 64),
+                        None => brute_force_knn(fx.iter().map(|(i, v)| (*i, v.as_slice())), &fq, k, mt.metric()),
+                    };
+                    e.into_iter().filter(|(_, d)| maxd.map_or(true, |t| *d <= t)).collect()
+                }
+            };
+            rows.push((l.0, qv.unwrap_or_default(), res));
+        }
+        let total: usize = rows.iter().map(|x| x.2.len()).sum();
+        let max_calls = total / cap.max(1) + 6;
+        let mut chunks: Vec<Vec<(u64, NodeId, f32)>> = Vec::new();
+        let mut calls = 0;
+        let mut finished = false;
+        while calls < max_calls {
+            calls += 1;
+            match op.next() {
+                Ok(Some(ch)) => {
+                    let mut rs = Vec::new();
+                    for i in 0..ch.row_count() {
+                        rs.push((
+                            ch.column(0).and_then(|c| c.get_node_id(i)).map_or(u64::MAX, |x| x.0),
+                            ch.column(1).and_then(|c| c.get_node_id(i)).unwrap_or(NodeId::new(u64::MAX)),
+                            to_f32(ch.column(2).and_then(|c| c.get_float64(i)).unwrap_or(f64::NAN)),
+                        ));
+                    }
+                    chunks.push(rs);
+                }
+                _ => {
+                    finished = true;
+                    break;
+                }
+            }
+        }
+        let flat: Vec<(u64, NodeId, f32)> = chunks.iter().flatten().copied().collect();
+        let spec: Vec<(u64, NodeId, f32)> = rows.iter().flat_map(|(l, _, rs)| rs.iter().map(move |(i, d)| (*l, *i, *d))).collect();
+        let same = finished && flat.len() == spec.len() && flat.iter().zip(&spec).all(|(a, b)| a.0 == b.0 && a.1 == b.1 && a.2.to_bits() == b.2.to_bits());
+        // every left row's result is a sound search result
+        let mut st = OracleState { live: vecs.clone(), fail: None };
+        for (_, qv, rs) in &rows {
+            if !qv.is_empty() {
+                check_result(mt, &mut st, qv, k, rs, "VectorJoinOperator row");
+            }
+        }
+        let ok = same && st.fail.is_none();
+        let rows_term = format!("[{}]", rows.iter().map(|(l, _, rs)| format!("({},{})", l, res_term(rs))).collect::<Vec<_>>().join(";"));
+        let chunk_term = |c: &Vec<(u64, NodeId, f32)>| format!("[{}]", c.iter().map(|(l, i, d)| format!("({},({},{}))", l, i.0, bits(*d))).collect::<Vec<_>>().join(";"));
+        out.emit(&Case {
+            kind: "op-vector-join".into(),
+            input: format!(
+                "{}metric={} mode={} k={} cap={} left_chunk={} maxd={:?} left={:?} vectors={:?} static_q={:?}",
+                if forced { "corpus:C18-K4-witness " } else { "" }, mt.name(), mode, k, cap, left_chunk, maxd, left_nodes.iter().map(|x| x.0).collect::<Vec<_>>(), vecs, qstatic
+            ),
+            coq: Some(format!("chk_join {} {} {} [{}] {} {}", cap, calls, rows_term, chunks.iter().map(chunk_term).collect::<Vec<_>>().join(";"), coq::b(finished), coq::b(!same))),
+            oracle: if ok { Oracle::Ok } else { Oracle::Fail },
+            msg: if ok { String::new() } else { st.fail.clone().unwrap_or_else(|| format!("after {} calls (finished={}) the operator produced {} rows, the join has {}: first chunks {:?}", calls, finished, flat.len(), spec.len(), &chunks[..chunks.len().min(3)])) },
+            kid: if ok || st.fail.is_some() { None } else { Some("C18-K4".into()) },
+            kcoq: if ok || st.fail.is_some() { None } else { Some(format!("k_join {} {}", cap, rows_term)) },
+            nontrivial: total >= 2,
+            imp: format!("{} chunks in {} calls, finished={}", chunks.len(), calls, finished),
+            tags: vec![format!("join-mode={}", mode), format!("join-cap={}", cap), format!("join-left-chunk={}", left_chunk), if ok { "join-ok".into() } else { "join-repeats-rows".into() }],
+            ..Default::default()
+        });
+    }
+}
+
 // ------------------------------------------------------------------------------------------ GrafeoDB::vector_search
 
 fn case_engine(r: &mut Rng, out: &mut Out) {
@@ -1189,67 +1704,7 @@ fn case_engine(r: &mut Rng, out: &mut Out) {
     });
 }
 
-fn probe() {
-    use grafeo_common::types::Value;
-    use grafeo_core::execution::operators::{NodeListOperator, Operator, VectorJoinOperator, VectorScanOperator};
-    use grafeo_core::graph::lpg::LpgStore;
-    use std::sync::Arc;
-    // (c) brute force with a NaN distance
-    let big = 1e30f32;
-    let xs: Vec<(NodeId, Vec<f32>)> = vec![(NodeId::new(1), vec![1.0, 1.0]), (NodeId::new(2), vec![big, -big]), (NodeId::new(3), vec![2.0, 2.0])];
-    let q = vec![big, big];
-    let r = brute_force_knn(xs.iter().map(|(i, v)| (*i, v.as_slice())), &q, 3, DistanceMetric::DotProduct);
-    println!("brute NaN: {:?}", r);
-    let r = brute_force_knn(xs.iter().map(|(i, v)| (*i, v.as_slice())), &q, 1, DistanceMetric::DotProduct);
-    println!("brute NaN k=1: {:?}", r);
-    // (a) quantized k overflow
-    let res = std::panic::catch_unwind(|| {
-        let ix = QuantizedHnswIndex::with_seed(HnswConfig::new(2, DistanceMetric::Euclidean), QuantizationType::Scalar, 1).with_training_threshold(10);
-        for i in 0..12u64 {
-            ix.insert(NodeId::new(i + 1), &[i as f32, 1.0]);
-        }
-        let r = ix.search(&[0.0, 0.0], usize::MAX);
-        r.len()
-    });
-    println!("quantized k=MAX: {:?}", res.map_err(|_| "panic"));
-    // (b) vector join chunk boundary
-    let store = Arc::new(LpgStore::new());
-    let mut ids = vec![];
-    for i in 0..4 {
-        let n = store.create_node(&["Item"]);
-        store.set_node_property(n, "e", Value::Vector(vec![i as f32, 0.0].into()));
-        ids.push(n);
-    }
-    let left = Box::new(NodeListOperator::new(vec![ids[0], ids[1]], 1024));
-    let mut join = VectorJoinOperator::entity_to_entity(left, Arc::clone(&store), 0, "e", "e", 2, DistanceMetric::Euclidean).with_chunk_capacity(2);
-    let mut rows = vec![];
-    let mut calls = 0;
-    while let Ok(Some(chunk)) = join.next() {
-        calls += 1;
-        for i in 0..chunk.row_count() {
-            rows.push((chunk.column(0).unwrap().get_node_id(i), chunk.column(1).unwrap().get_node_id(i), chunk.column(2).unwrap().get_float64(i)));
-        }
-        if calls > 10 {
-            println!("join: still producing after 10 calls");
-            break;
-        }
-    }
-    println!("join rows: {:?}", rows);
-    let mut scan = VectorScanOperator::brute_force(Arc::clone(&store), "e", vec![0.0, 0.0], 3, DistanceMetric::Euclidean).with_chunk_capacity(2);
-    let mut rows = vec![];
-    while let Ok(Some(chunk)) = scan.next() {
-        for i in 0..chunk.row_count() {
-            rows.push((chunk.column(0).unwrap().get_node_id(i), chunk.column(1).unwrap().get_float64(i)));
-        }
-    }
-    println!("scan rows: {:?}", rows);
-}
-
 fn main() {
-    if std::env::var("C18_PROBE").is_ok() {
-        probe();
-        return;
-    }
     let a = parse_args();
     quiet_panics();
     let mut out = Out::create(a.out.as_deref());
@@ -1257,7 +1712,10 @@ fn main() {
     let hook = hook_present();
     let thorough = a.tier == "thorough";
     // corpus first
-    run_hist(&witness_hist(), &mut out, hook, "corpus:C18-K1-witness");
+    run_hist(&witness_hist(), &mut out, hook, "corpus:unreachable-after-remove");
+    case_brute_extreme(&mut r, &mut out, true);
+    case_qtwin(&mut r, &mut out, true);
+    case_operators(&mut r, &mut out, true);
     for d in DIMS {
         // every dimension once with the last coordinate carrying the only difference
         let mut x = vec![1i64; d];
@@ -1269,8 +1727,21 @@ fn main() {
         match i % 20 {
             0 | 1 | 2 | 3 => case_kernel(&mut r, &mut out, None),
             4 => case_kernel_float(&mut r, &mut out),
-            5 | 6 => case_brute(&mut r, &mut out),
-            7 => case_bheap(&mut r, &mut out),
+            5 => case_brute(&mut r, &mut out),
+            6 => {
+                if i % 40 == 6 {
+                    case_brute(&mut r, &mut out);
+                } else {
+                    case_brute_extreme(&mut r, &mut out, false);
+                }
+            }
+            7 => {
+                if i % 40 == 7 {
+                    case_bheap(&mut r, &mut out);
+                } else {
+                    case_operators(&mut r, &mut out, false);
+                }
+            }
             8 | 9 | 10 | 11 | 12 | 13 => {
                 let h = gen_hist(&mut r, true, hook, thorough && i % 40 == 8);
                 run_hist(&h, &mut out, hook, "gen");
@@ -1287,8 +1758,14 @@ fn main() {
                     case_squant(&mut r, &mut out);
                 }
             }
-            16 => case_squant(&mut r, &mut out),
-            17 => case_quantized(&mut r, &mut out),
+            16 => case_qtwin(&mut r, &mut out, false),
+            17 => {
+                if i % 40 == 17 {
+                    case_quantized(&mut r, &mut out);
+                } else {
+                    case_qtwin(&mut r, &mut out, false);
+                }
+            }
             18 => {
                 if i % 60 == 18 {
                     case_engine(&mut r, &mut out);
